@@ -146,7 +146,7 @@ pub fn check(rep: &Reporter) {
 		let mut http = srv::http_service(cfg(l));
 		let ws = srv::ws_server(cfg(l));
 		for kind in [0u8, 1, 3] {
-			for delta in (if thorough { -4i64..=4 } else { -2i64..=2 }) {
+			for delta in if thorough { -4i64..=4 } else { -2i64..=2 } {
 				// other entries carry 3 units; find n for entry j so that the unlimited array has L+delta bytes
 				let entry = |idx: usize, n: usize| call_text("blob", &format!("{}", idx + 1), kind, n);
 				let len_of = |n: usize| -> usize {
